@@ -470,6 +470,12 @@ def _cold_world(ops, upto):
 def execute(history, opts=None):
     G = lib()
     ctx = Ctx()
+    fd = None
+    if opts and opts.get("float_digest"):
+        import hashlib
+
+        fd = hashlib.sha256()
+    ctx.fd = fd
     ops = history["ops"]
     W = World()
     snaps = {}
@@ -538,6 +544,8 @@ def execute(history, opts=None):
                 ctx.event(step, kind, "noop")
                 continue
             ta, tb = tname(W.get(a)), (tname(W.get(b)) if b is not None else "-")
+            if fd is not None:
+                fd.update(detail(r).encode())
             ctx.count("cell:%s:%s:%s" % (q, ta, tb))
             ctx.count("queries")
             if isinstance(r, Raised):
@@ -620,7 +628,7 @@ def _result(ctx, history):
         "violations": ctx.violations,
         "stats": ctx.stats,
         "detail": ctx.detail,
-        "float_digest": None,
+        "float_digest": ctx.fd.hexdigest() if getattr(ctx, "fd", None) is not None else None,
         "nontrivial": nontrivial,
         "steps": len(ops),
         "shape": ">".join(k[0] + k[-1] for k in kinds),
